@@ -164,16 +164,18 @@ def g_psp(r, big):
 
 
 def g_alp(r, big):
-    n, C, R = r.randint(1, 4 if not big else 5), r.randint(1, 2), r.randint(1, 2)
-    # separations satisfying the triangle inequality: base + class surcharge
-    base = r.randint(1, 4)
-    extra = [r.randint(0, 2) for _ in range(C)]
-    sep = [[base + extra[j] for j in range(C)] for i in range(C)]
+    n, C, R = r.randint(1, 4 if not big else 5), r.randint(1, 3), r.randint(1, 2)
+    # separations satisfying the triangle inequality, NOT symmetric in general: base + a surcharge of the follower's class
+    # + (for some instances) a surcharge of the leader's class; sep[a][c] <= sep[a][b] + sep[b][c] holds since every entry is in [base, 2 base]
+    base = r.randint(2, 5)
+    extra = [r.randint(0, base // 2) for _ in range(C)]
+    lead = [r.randint(0, base - base // 2) if r.random() < 0.5 else 0 for _ in range(C)]
+    sep = [[base + extra[j] + lead[i] for j in range(C)] for i in range(C)]
     cls = sorted(r.randrange(C) for _ in range(n))
     air = []
     for c in range(C):
         k = cls.count(c)
-        tg = sorted(r.randint(0, 12) for _ in range(k))
+        tg = sorted(r.randint(0, 8) for _ in range(k))
         slack = sorted(r.randint(0, 10) for _ in range(k))
         lat = [tg[i] + slack[i] for i in range(k)]
         lat = [max(lat[:i + 1]) for i in range(k)]                 # non-decreasing latest within the class
@@ -235,7 +237,7 @@ def c16(tier, replay):
     thorough = tier == "thorough"
     bindir = build_examples()
     r = random.Random(SEED * 7919 + 16)
-    per_ex = 24 if not thorough else 150
+    per_ex = 60 if not thorough else 240
     jobs = []      # (run, ex, inst, file/arg, [(width, threads)...])
     if replay:
         rp = json.load(open(replay))["replay"]
